@@ -304,6 +304,24 @@ def _check_message(rec, L, case, kind, p, keep):
     if bytes(r.pack()) != ref:
         bad("recognise/to_reserved_msg_tlv/repack", bytes(r.pack()), ref)
     keep.hold("MessageToUserTlv.to_reserved_msg_tlv", r, _obs_msg, case)
+    # the same message reaching the class by the other routes a user has: built from immutable octets, converted from a generic TLV
+    MTU, GenericTlv, TT = L.tlv.MessageToUserTlv, L.tlv.CfdpTlv, L.tlv.TlvType  # resolved outside the try: harness names, not library behaviour
+    for route, make in (("MessageToUserTlv(bytes)", lambda: MTU(bytes(ref[2:]))),
+                        ("MessageToUserTlv.from_tlv(CfdpTlv(bytes))", lambda: MTU.from_tlv(GenericTlv(TT.MESSAGE_TO_USER, bytes(ref[2:]))))):
+        try:
+            m2 = make()
+            r2 = m2.to_reserved_msg_tlv() if m2.is_reserved_cfdp_message() is True else None
+        except Exception as e:
+            bad(f"recognise/{route}/exception", _exc(e), None)
+            continue
+        if r2 is None or bytes(r2.pack()) != ref:
+            bad(f"recognise/{route}/not-recognised-or-repack", None if r2 is None else bytes(r2.pack()), ref)
+        elif GETTERS[kind]:
+            try:
+                if observe_params(kind, getattr(r2, GETTERS[kind])()) != expected_params(kind, p):
+                    bad(f"params/{GETTERS[kind]}/values/{route}", observe_params(kind, getattr(r2, GETTERS[kind])()), expected_params(kind, p))
+            except Exception as e:
+                bad(f"params/{GETTERS[kind]}/exception/{route}", _exc(e), None)
     getter = GETTERS[kind]
     if getter:
         exp = expected_params(kind, p)
@@ -325,6 +343,15 @@ def _check_message(rec, L, case, kind, p, keep):
                 else:
                     if obs2 != exp:
                         bad(f"params/{getter}/second-read/values", obs2, exp)
+                if kind == "otid":  # equal transaction IDs hash equally (a dict of running transactions keyed by the ID finds the decoded one)
+                    from spacepackets.util import ByteFieldGenerator as _Gen  # typed field classes, as a user builds an ID
+
+                    try:
+                        mine = L.TransactionId(_Gen.from_int(p["w"], p["id"]), _Gen.from_int(p["sw"], p["seq"]))
+                        if not (mine == got_params and got_params == mine) or hash(mine) != hash(got_params):
+                            bad(f"params/{getter}/decoded-id-not-equal-or-hashes-differently", [mine == got_params, hash(mine) == hash(got_params)], [True, True])
+                    except Exception as e:
+                        bad(f"params/{getter}/transaction-id-eq-hash/exception", _exc(e), None)
                 # the text / path views of the names the parameter objects offer (names that are UTF-8 text only: the views decode)
                 for view, name in name_views(kind, got_params, exp):
                     try:
